@@ -143,12 +143,16 @@ def flagOfV4 (mask raw : Nat) : Bool :=
 /-- spec: some selected bit is set in the raw byte -/
 def specFlag (mask raw : Nat) : Bool := (List.range 8).any fun i => mask.testBit i && raw.testBit i
 
+/-- documented bit value of a flag name: `1 <<< position in the documented table` -/
+def docBit (name : String) : Nat := 1 <<< documentedNames.idxOf name.toList
+
 /-- v4 raw flag byte: the stored byte (`none` = the flags chunk itself is missing, which reads as the fill
-    value DATA_LOST), DATA_LOST added where a chunk of another array is missing, POSTPROC added by applycal
-    where the correction is NaN. -/
+    value DATA_LOST), data_lost added where a chunk of another array is missing, postproc added by applycal
+    where the correction is NaN.  Uses the documented bit positions (the constants of flags.py are tied to
+    them by `C16.tables_consistent`). -/
 def rawV4 (stored : Option Nat) (lost postproc : Bool) : Nat :=
-  let s := match stored with | some b => b | none => Tables.flagDataLost
-  (s ||| (if lost then Tables.flagDataLost else 0)) ||| (if postproc then Tables.flagPostproc else 0)
+  let s := match stored with | some b => b | none => docBit "data_lost"
+  (s ||| (if lost then docBit "data_lost" else 0)) ||| (if postproc then docBit "postproc" else 0)
 
 /-! ### the select() state machine (dataset.py `DataSet.select`) -/
 
